@@ -1,7 +1,7 @@
 //! C13 — colour conversions scale to the nearest value and preserve the extremes.
 //! Enumeration of source colours for every From conversion against exact rational scaling.
 use egmon::{jobj, main_with, rng::mix, Ctx, Run};
-use embedded_graphics::pixelcolor::*;
+use embedded_graphics::pixelcolor::{raw::{RawData, RawU1}, *};
 use std::fmt::Debug;
 
 #[derive(Clone, Copy, PartialEq, Eq, Debug)]
@@ -18,6 +18,8 @@ trait CI: Copy + PartialEq + Debug + Send + Sync + 'static {
     const BITS: [u32; 3];
     fn ch(self) -> [u32; 3];
     fn make(ch: [u32; 3]) -> Self;
+    /// the colour as an image or framebuffer obtains it: from a raw value (all 32 bits arbitrary)
+    fn from_raw(v: u32) -> Self;
     fn count() -> u64 {
         match Self::KIND {
             Kind::Rgb => 1u64 << (Self::BITS[0] + Self::BITS[1] + Self::BITS[2]),
@@ -52,6 +54,9 @@ macro_rules! ci_rgb {
             fn make(ch: [u32; 3]) -> Self {
                 $t::new(ch[0] as u8, ch[1] as u8, ch[2] as u8)
             }
+            fn from_raw(v: u32) -> Self {
+                $t::from(<<$t as PixelColor>::Raw as RawData>::from_u32(v))
+            }
         }
     };
 }
@@ -66,6 +71,9 @@ macro_rules! ci_gray {
             }
             fn make(ch: [u32; 3]) -> Self {
                 $t::new(ch[0] as u8)
+            }
+            fn from_raw(v: u32) -> Self {
+                $t::from(<<$t as PixelColor>::Raw as RawData>::from_u32(v))
             }
         }
     };
@@ -96,6 +104,9 @@ impl CI for BinaryColor {
         } else {
             BinaryColor::Off
         }
+    }
+    fn from_raw(v: u32) -> Self {
+        BinaryColor::from(RawU1::from_u32(v))
     }
 }
 
@@ -256,6 +267,29 @@ where
     let full = n <= (1 << 18) || !run.quick();
     let gen: &'static str = Box::leak(format!("{}->{}", S::NAME, T::NAME).into_boxed_str());
     let salt = egmon::rng::hash_str(gen);
+    // sources as images and framebuffers obtain them: made from raw data whose bits beyond the
+    // channels (padding of Rgb444/555/666, upper storage bits) are arbitrary
+    {
+        let gen: &'static str = Box::leak(format!("{}->{}-sources-from-raw-data", S::NAME, T::NAME).into_boxed_str());
+        run.generate(gen, 4, false, 0.2, |ctx, idx, rng| {
+            for j in 0..512u32 {
+                let v = match (idx, j % 4) {
+                    (0, _) => rng.next_u32() | 0xFFFC_0000 | if S::BITS[0] < 6 { 0xF000 } else { 0 },
+                    (_, 0) => rng.next_u32(),
+                    (_, 1) => rng.next_u32() | 0x00FC_0000,
+                    (_, 2) => rng.next_u32() | 0x8000,
+                    _ => rng.next_u32() | 0xF000,
+                };
+                let c = S::from_raw(v);
+                check_value::<S, T>(ctx, c, false);
+                if c != S::make(c.ch()) {
+                    ctx.count("sources_from_raw_data_that_differ_from_the_colour_of_their_channels", 1);
+                }
+                ctx.nontrivial(mix(salt ^ 0x5A5A, v as u64));
+            }
+            ctx.count("sources_from_raw_data", 512);
+        });
+    }
     if full {
         let chunks = (n + CHUNK - 1) / CHUNK;
         run.generate(gen, chunks, true, 0.2, |ctx, idx, _| {
